@@ -63,4 +63,8 @@ def to_int(val: Any) -> int:
             f"value has {len(val)} digits",
             token=None,
         )
-    return int(val)
+    try:
+        return int(val)
+    except OverflowError as err:
+        # float infinity: let callers handle it like any other unconvertible value
+        raise ValueError(str(err)) from err
